@@ -99,7 +99,10 @@ func (c *perIPConn) Close() error {
 
 	err := cc.Close()
 	c.perIPConnCounter.Unregister(c.ip)
-	c.perIPConnCounter.perIPConnPool.Put(c)
+	// Do not recycle c: the serving goroutine, Server.idleConns, a handler that
+	// kept ctx.Conn() or the user of a hijacked connection may still hold this
+	// pointer and call Close again. Recycling would make that stale call close
+	// (and unregister) the connection the object was handed to next.
 	return err
 }
 
@@ -115,7 +118,7 @@ func (c *perIPTLSConn) Close() error {
 
 	err := cc.Close()
 	c.perIPConnCounter.Unregister(c.ip)
-	c.perIPConnCounter.perIPTLSConnPool.Put(c)
+	// Not recycled, see perIPConn.Close.
 	return err
 }
 
